@@ -33,29 +33,68 @@ def md_tokens(md):
     return out
 
 
+TAG_TYPES = {'SM': str, 'RX': str, 'MI': str, 'DS': int, 'TF': int, 'af': int}
+
+
 def project_record(r):
-    tags = {'_': 0}
-    for k in ('SM', 'RX', 'DS', 'TF', 'af'):
-        if r.has_tag(k):
-            v = r.get_tag(k)
-            tags[k] = v if isinstance(v, str) else int(v)
-    quals = r.query_qualities
-    return {'name': r.query_name, 'chrom': r.reference_name or '*', 'start': int(r.reference_start), 'rev': bool(r.is_reverse),
+    """Total projection of a record read back from a BAM file: a tag whose value does not have the expected type is left
+    out of "tags" (so the spec rejects it as missing) and its type name is kept in "tag_types" for the message."""
+    tags, tag_types = {'_': 0}, {'_': ''}
+    for k, typ in TAG_TYPES.items():
+        try:
+            if r.has_tag(k):
+                v = r.get_tag(k)
+                tag_types[k] = type(v).__name__
+                if typ is int and isinstance(v, int) and not isinstance(v, bool) and abs(v) < 2 ** 31:
+                    tags[k] = int(v)
+                elif typ is str and isinstance(v, str):
+                    tags[k] = v
+        except Exception as ex:
+            tag_types[k] = 'unreadable:' + type(ex).__name__
+    try:
+        quals = r.query_qualities
+        nq = 0 if quals is None else len(quals)
+    except Exception:
+        nq = -1
+    try:
+        md = md_tokens(r.get_tag('MD')) if r.has_tag('MD') and isinstance(r.get_tag('MD'), str) else []
+        has_md = r.has_tag('MD') and isinstance(r.get_tag('MD'), str)
+    except Exception:
+        md, has_md = [], False
+    return {'name': str(r.query_name), 'chrom': r.reference_name or '*', 'start': int(r.reference_start), 'rev': bool(r.is_reverse),
             'cigar': [{'op': CIGAR_OPS[op], 'n': int(n)} for op, n in (r.cigartuples or [])],
-            'seq': list(r.query_sequence or ''), 'nq': 0 if quals is None else len(quals),
-            'has_md': r.has_tag('MD'), 'md': md_tokens(r.get_tag('MD')) if r.has_tag('MD') else [],
-            'tags': tags,
-            'extra': {k: (r.get_tag(k) if r.has_tag(k) else '') for k in ('BC', 'MI')},
+            'seq': list(r.query_sequence or ''), 'nq': nq, 'has_md': has_md, 'md': md,
+            'tags': tags, 'tag_types': tag_types,
+            'extra': {k: (str(r.get_tag(k)) if r.has_tag(k) else '') for k in ('BC',)},
             'flag': int(r.flag), 'mapq': int(r.mapping_quality)}
+
+
+def read_back(path, keep):
+    """All records of a written BAM for which keep(name) holds, grouped as a list; an output that cannot be read to its end is
+    an observation (-> "raised": "UnreadableOutput"), not a driver crash."""
+    out = []
+    try:
+        with pysam.AlignmentFile(path, check_sq=False) as f:
+            for r in f:
+                if keep(r.query_name):
+                    out.append(project_record(r))
+    except Exception as ex:
+        return out, 'UnreadableOutput_' + type(ex).__name__
+    return out, None
 
 
 # ------------------------------------------------------------------------------------------------ generation
 
-def gen_quals(rng, mode, n):
+def gen_quals(rng, mode, n, qeq):
     if mode == 'equal':
-        return None
+        return [qeq] * n
     if mode == 'tri':
         return [rng.choice([10, 20, 30]) for _ in range(n)]
+    if mode == 'lowtail':      # a '#' tail (phred 2) of 1..4 cycles at either end of the read
+        k = min(n, rng.randint(1, 4))
+        return [qeq] * (n - k) + [2] * k if rng.random() < 0.5 else [2] * k + [qeq] * (n - k)
+    if mode == 'low':          # nothing above phred 3: every position is undecidable for the caller -> N
+        return [rng.randint(0, 3) for _ in range(n)]
     return [rng.choice([0, 0, 1]) if rng.random() < 0.1 else rng.randint(2, 41) for _ in range(n)]     # incl. quality 0 ('!')
 
 
@@ -70,7 +109,7 @@ def gen_mate(rng, ref, start, length, rev, qmode, qeq, err, gaps=True):
         else:
             seq.append(rng.choice('ACGTN' if rng.random() < 0.15 else 'ACGT'))
     mate['seq'] = seq
-    mate['q'] = gen_quals(rng, qmode, length) or [qeq] * length
+    mate['q'] = gen_quals(rng, qmode, length, qeq)
     return mate
 
 
@@ -80,8 +119,8 @@ def gen_molecule(rng, ref, origin, chrom, same_start=False, max_frags=6, force_r
     rev = rng.random() < 0.4 if force_rev is None else force_rev
     n = rng.choice([1, 1, 1, 2, 2, 3, 3, 4, 5, 6][:max(1, min(10, max_frags * 2))])
     n = min(n, max_frags)
-    qmode = rng.choices(['equal', 'tri', 'any'], [0.55, 0.35, 0.10])[0]
-    qeq = rng.choice([10, 20, 30, 30, 37, 40])
+    qmode = rng.choices(['equal', 'tri', 'any', 'lowtail', 'low'], [0.45, 0.28, 0.09, 0.12, 0.06])[0]
+    qeq = rng.choice([10, 20, 30, 30, 37, 40, 3, 4, 9])     # 3 / 4: either side of the caller's N threshold
     err = rng.choice([0.0, 0.05, 0.15, 0.3])
     gaps = rng.random() < 0.5
     nomd = rng.random() < 0.1
@@ -127,8 +166,30 @@ def ref_window(ref, mol):
     return {'start': lo, 'seq': list(ref[lo:hi + 2])}
 
 
-def read_tags(mol):
-    return {'SM': mol['sample'], 'RX': mol['umi'], 'BC': mol['bc'], 'MX': 'scCHIC', 'LY': 'lib1'}
+def frag_umi(mol, f):
+    return f.get('umi', mol['umi'])
+
+
+def read_tags(mol, f=None):
+    return {'SM': mol['sample'], 'RX': mol['umi'] if f is None else frag_umi(mol, f), 'BC': mol['bc'], 'MX': 'scCHIC', 'LY': 'lib1'}
+
+
+def add_umi_errors(rng, mol, one_variant=False):
+    """Give a minority of the fragments an error UMI at Hamming distance 1 from the molecule's UMI - lexicographically smaller
+    and / or larger than it. The majority stays strictly larger than every minority, except for two-fragment molecules (tie)."""
+    n = len(mol['frags'])
+    for f in mol['frags']:
+        f.pop('umi', None)
+    if n < 2:
+        return
+    u = mol['umi']
+    variants = [u[:-1] + c for c in 'ACGT' if c != u[-1]]      # smaller and larger ones
+    if one_variant:
+        variants = [rng.choice(variants)]
+    k = 1 if n == 2 else rng.randint(1, (n - 1) // 2)
+    # minorities anywhere in the insertion order, also first
+    for i in rng.sample(range(n), k):
+        mol['frags'][i]['umi'] = rng.choice(variants)
 
 
 def base_event(ref, mol, via, max_n, site, assoc=None, cap=None):
@@ -140,6 +201,8 @@ def base_event(ref, mol, via, max_n, site, assoc=None, cap=None):
     inside = dict(mol, frags=mol['frags'][:assoc])
     return {'ev': 'pseudo', 'via': via, 'maxN': -1 if max_n is None else int(max_n), 'chrom': mol['chrom'], 'strand': bool(mol['strand']),
             'mol': {'SM': mol['sample'], 'RX': mol['umi'], 'DS': int(site), 'TF': n, 'af': assoc},
+            # UMIs of the fragments the molecule accepted: its UMI is the (strictly) most common one
+            'umis': [frag_umi(mol, f) for f in mol['frags'][:assoc]], 'bc': mol['bc'],
             'cap': 0 if cap is None else int(cap),
             'reads': [{'start': m['start'], 'cigar': m['cigar'], 'seq': m['seq'], 'q': m['q']} for m in mapped_reads(inside)],
             'ref': ref_window(ref, mol), 'desc': {'frags': mol['frags'], 'bc': mol['bc']}}
@@ -158,13 +221,13 @@ class Env:
     def fragments(self, mol):
         out = []
         for i, f in enumerate(mol['frags']):
-            reads = molgen.build_reads(self.hdr, self.ref, mol['chrom'], 'src%d' % i, f, tags=read_tags(mol))
-            out.append(self.CHICFragment(reads, assignment_radius=100000, umi_hamming_distance=0))
+            reads = molgen.build_reads(self.hdr, self.ref, mol['chrom'], 'src%d' % i, f, tags=read_tags(mol, f))
+            out.append(self.CHICFragment(reads, assignment_radius=100000, umi_hamming_distance=1))
         return out
 
     def site_of(self, mol):
         """The molecule's site as the fragment class defines it for the first fragment (C09 is about its correctness)."""
-        reads = molgen.build_reads(self.hdr, self.ref, mol['chrom'], 'site', mol['frags'][0], tags=read_tags(mol))
+        reads = molgen.build_reads(self.hdr, self.ref, mol['chrom'], 'site', mol['frags'][0], tags=read_tags(mol, mol['frags'][0]))
         return self.CHICFragment(reads, assignment_radius=100000, umi_hamming_distance=0).get_site_location()[1]
 
     def api_case(self, mol, max_n, name, out_bam, cap=None, hist_k=None, wp=None):
@@ -219,9 +282,9 @@ def run_api(env, emit, items, tid0, tag):
             wp = item[4] if len(item) > 4 else None
             results[k] = env.api_case(item[0], item[1], 'cons_%d' % k, out, cap, hist_k, wp)
     got = {}
-    with pysam.AlignmentFile(path, check_sq=False) as f:
-        for r in f:
-            got.setdefault(r.query_name, []).append(project_record(r))
+    recs_all, unreadable = read_back(path, lambda name: True)
+    for rec in recs_all:
+        got.setdefault(rec['name'], []).append(rec)
     os.remove(path)
     tid = tid0
     for k, item in enumerate(items):
@@ -238,8 +301,8 @@ def run_api(env, emit, items, tid0, tag):
                 e['wp'] = item[4]
             e['tid'] = tid
             tid += 1
-            if raised:
-                e['raised'] = raised
+            if raised or unreadable:
+                e['raised'] = raised or unreadable
             else:
                 e['records'] = got.get(label, [])
             emit(e)
@@ -254,7 +317,7 @@ def run_cli(env, emit, mols, no_source, with_ref, tid0, tag, cap=None):
         for j, f in enumerate(mol['frags']):
             nm = 'src_m%d_f%d' % (i, j)
             names.add(nm)
-            reads += [r for r in molgen.build_reads(env.hdr, env.ref, mol['chrom'], nm, f, tags=read_tags(mol)) if r is not None]
+            reads += [r for r in molgen.build_reads(env.hdr, env.ref, mol['chrom'], nm, f, tags=read_tags(mol, f)) if r is not None]
     reads.sort(key=lambda r: (r.reference_id, r.reference_start))
     with pysam.AlignmentFile(inp, 'wb', header=env.hdr) as f:
         for r in reads:
@@ -289,10 +352,7 @@ def run_cli(env, emit, mols, no_source, with_ref, tid0, tag, cap=None):
         raised = 'Hang'
     cons = []
     if raised is None and os.path.exists(outp):
-        with pysam.AlignmentFile(outp, check_sq=False) as f:
-            for r in f:
-                if r.query_name not in names:
-                    cons.append(project_record(r))
+        cons, raised = read_back(outp, lambda name: name not in names)
     elif raised is None:
         raised = 'NoOutputFile'
     for p in (inp, inp + '.bai', outp, outp + '.bai', outp.replace('.bam', '.status.txt')):
@@ -352,6 +412,8 @@ def main():
                     mol = gen_molecule(rng, env.ref, len(env.ref), rng.choice([c for c, _ in molgen.CONTIGS]), same_start=True, force_rev=True)
                 else:
                     mol = gen_molecule(rng, env.ref, rng.randint(500, 100000), rng.choice([c for c, _ in molgen.CONTIGS]))
+                if rng.random() < 0.4:
+                    add_umi_errors(rng, mol)
                 n = len(mol['frags'])
                 # every fifth molecule of >= 2 fragments exceeds a configured max_associated_fragments
                 cap = rng.randint(1, n - 1) if n >= 2 and rng.random() < 0.35 else None
@@ -383,6 +445,10 @@ def main():
                     m['umi'] = 'ACGT'[i % 4] + m['umi'][1:]
                 if twin_of_first:
                     mols[-1]['umi'] = mols[0]['umi']
+                for m in mols:
+                    if rng.random() < 0.6:
+                        # the tagger pools UMIs within Hamming distance 1 of each other: one error variant per molecule
+                        add_umi_errors(rng, m, one_variant=True)
                 cap = None
                 if k % 4 == 2:
                     # capped run: which fragments a molecule accepts depends on the tagger's read order, so every fragment of a
